@@ -156,7 +156,9 @@ func (w *World) Genesis() (*Node, error) {
 			amt = p.GenesisBalances(i)
 		}
 		creds := BLSCreds(w.Keys[i].PK)
-		if i%4 == 3 || p.AllEth1Creds {
+		// every fifth validator has an execution address: with a sweep of four the windows are 0..3 (nobody), 4..7
+		// (first seat), 8..11 (second), 12..15 (third) — every offset inside the sweep, and the empty sweep
+		if i%5 == 4 || p.AllEth1Creds {
 			creds = Eth1Creds(byte(0x40 + i))
 		}
 		datas = append(datas, w.MakeDepositData(i, amt, creds, i))
